@@ -29,7 +29,7 @@ def rot(r, v):
     return tuple(signs[i] * v[perm[i]] for i in range(3))
 
 
-def with_hydrogens_text(name, xh=None):
+def with_hydrogens_text(name, xh=None, legacy_names=False):
     """the fixture with the program's own hydrogens written back (3 decimals); xh: re-scale every X-H bond to
     this length (riding hydrogens as refinement programs write them, e.g. N-H 0.86 A): these are NOT the positions
     the program would build, so whether a supplied hydrogen is perceived as bonded matters"""
@@ -42,7 +42,10 @@ def with_hydrogens_text(name, xh=None):
             p = a.bonded_atoms[0]
             d = ((x - p.x) ** 2 + (y - p.y) ** 2 + (z - p.z) ** 2) ** 0.5
             x, y, z = [round(pc + (hc - pc) * xh / d, 3) for pc, hc in ((p.x, x), (p.y, y), (p.z, z))]
-        lines.append(H.pdb_line(i + 1, a.name, a.res_name.strip(), a.chain_id, a.res_num, x, y, z, element=a.element))
+        nm = a.name
+        if legacy_names and a.element == 'H' and len(nm) == 4 and nm[-1].isdigit():
+            nm = nm[-1] + nm[:-1]      # old-style (PDB v2 / NMR / MD) hydrogen names: HD21 -> 1HD2, HH12 -> 2HH1
+        lines.append(H.pdb_line(i + 1, nm, a.res_name.strip(), a.chain_id, a.res_num, x, y, z, element=a.element))
     return ''.join(lines) + 'TER   \n'
 
 
